@@ -12,7 +12,10 @@ class Crate:
         self.file = path
         self.j = json.loads(Path(path).read_text())
         self.name = self.j["crate"]
-        self.fns = [Fn(self, f) for f in self.j["fns"]]
+        # items of #[cfg(test)] modules (present under the test-profile configuration) are not part of the library
+        self.fns = [Fn(self, f) for f in self.j["fns"] if not is_test_path(f["path"])]
+        self.j["impls"] = [i for i in self.j["impls"] if not is_test_path(i.get("path", "")) and not is_test_path(i.get("self_ty", ""))]
+        self.j["adts"] = [a for a in self.j["adts"] if not is_test_path(a["path"])]
         self.by_path = {}
         for f in self.fns:
             self.by_path.setdefault(f.path, f)
@@ -58,6 +61,10 @@ class Crate:
 
     def stats(self):
         return {"crate": self.name, "bodies": self.j["n_bodies"], "call_sites": self.j["n_calls"], "fns": len(self.fns)}
+
+
+def is_test_path(p: str) -> bool:
+    return any(seg in p for seg in ("::tests::", "::test::", "::tests>", "::test_util::", "::label_tests::")) or p.endswith("::tests") or p.endswith("::test_util")
 
 
 def ty_matches(ty: str, want: str) -> bool:
